@@ -16,6 +16,7 @@ def run(tier, seed):
     nsh = core.NCPU if tier == "thorough" else min(8, core.NCPU)
     cases, sums, notes = core.run_sharded(exe, "c06", seed, tier, nsh, timeout=3000)
     r.add_cases(cases, "native")
+    core.also_librel(r, tier, False, lambda exe2: core.run_sharded(exe2, "c06", seed, tier, nsh, timeout=3000))
     r.notes += notes
     obs = core.sum_dicts(sums)
     r.observe("native", obs)
@@ -28,7 +29,7 @@ def run(tier, seed):
 def replay(path):
     import subprocess
     rp = core.load_replay(path)
-    exe = core.build_native()
+    exe = core.build_native(libopt="librel" in str(rp.get("engine", "")))
     bad = 0
     for k in range(5):
         p = subprocess.run([exe, "c06", "--seed", str(rp["seed"]), "--tier", rp["tier"], "--only", str(rp["case_index"])], stdout=subprocess.PIPE, text=True)
